@@ -19,6 +19,10 @@ def run(prop, tier, seed, t0):
         futs += R.run_sharded(res, exes[2], ['mode=long'], nlong, label='h_c15/plain', variant='plain', first=1000, nshards=nlong, executor=ex)
         futs += R.run_sharded(res, exes[0], ['mode=hist'], nh, label='h_c15/ovf', variant='ovf', first=10000, nshards=core.NPROC, executor=ex)
         futs += R.run_sharded(res, exes[1], ['mode=hist'], na, label='h_c15/asan_ovf', variant='asan_ovf', first=5_000_000, nshards=core.NPROC // 2, executor=ex)
+        # table-size seesaw histories (big tables -> small frame with a dictionary copied into the context -> big tables again)
+        nss = (3000, 400) if thorough else (48, 16)
+        futs += R.run_sharded(res, exes[2], ['mode=seesaw'], nss[0], label='h_c15/plain', variant='plain', first=20_000_000, nshards=core.NPROC, executor=ex)
+        futs += R.run_sharded(res, exes[1], ['mode=seesaw'], nss[1], label='h_c15/asan_ovf', variant='asan_ovf', first=21_000_000, nshards=core.NPROC // 2, executor=ex)
         for f in futs:
             f.result()
     cov = {
@@ -26,7 +30,7 @@ def run(prop, tier, seed, t0):
         'distinct_nontrivial': res.ncells('history') + res.ncells('real') + res.ncells('long'),
         'rule': 'build with ZSTD_WINDOW_OVERFLOW_CORRECT_FREQUENTLY (knob of zstd itself): histories of 8..32 (thorough ..68) frames through ONE CCtx and ONE DCtx with random parameters per frame or sticky parameters (indices continue), small windows with inputs of several windows, streaming and one-shot mixed, MT, dictionaries/prefixes that scroll out of range; every frame must round-trip (library through the long-lived DCtx, R on a sample) and equal the fresh-context output; '
                 'plain build, genuine 32-bit index overflow: contexts fed 3.7 GiB of 2/4/8 MiB frames without parameter change compared with the fresh-context output at every frame, then a frame at each of the 9 strategies; single streaming frames of 4.3 GiB compressed, decoded and compared on the fly. distinct non-trivial = distinct histories + real-overflow configurations + long-stream configurations',
-        'histories': res.stat('histories'), 'frames_in_histories': res.stat('frames'), 'bytes_in_histories': res.stat('bytes'), 'frames_checked_by_R': res.stat('frames_checked_by_R'), 'window_wraps(n / window) seen': res.stat('window_wraps'),
+        'table_size_seesaw_histories': res.stat('seesaw_histories'), 'histories': res.stat('histories'), 'frames_in_histories': res.stat('frames'), 'bytes_in_histories': res.stat('bytes'), 'frames_checked_by_R': res.stat('frames_checked_by_R'), 'window_wraps(n / window) seen': res.stat('window_wraps'),
         'max_cumulative_MiB_through_one_context(histories)': res.maxes.get('max_cumulative_MiB_through_one_context', 0), 'history_shapes': res.cells.get('history_shape', {}),
         'real_overflow_runs': res.ncells('real'), 'real_frames': res.stat('real_frames'), 'contexts_fed_beyond_3500MiB_without_parameter_change': res.stat('contexts_fed_beyond_3500MiB_without_parameter_change'), 'real_max_MiB_through_one_context': res.maxes.get('real_max_MiB_through_one_context', 0),
         'long_streams': res.stat('long_streams'), 'single_frames_beyond_4GiB': res.stat('single_frames_beyond_4GiB'), 'long_stream_MiB': res.maxes.get('long_stream_MiB', 0),
